@@ -244,7 +244,7 @@ def _pack_h(pid, n, dm, tiers, timeout=1800, mem_gb=12):
           B + 'BMOCBuilderUnsafe::pack#0': dm + 2, B + 'BMOCBuilderUnsafe::pack#1': n + 1, B + 'BMOCBuilderUnsafe::pack#2': n + 1}
     return H('%s_pack_%d_dm%d' % (pid.lower(), n, dm), 'k_pack(%d, %d);' % (n, dm), tiers=tiers, timeout=timeout, mem_gb=mem_gb,
              unwind=3, unwindset=us, stubs=_bmoc_stubs('verif_' + pid.lower()),
-             inputs=_ops_inputs('a') + [('c', 'u64')], replay='bmoc_pack', replay_search=('bmoc_pack_search' if n <= 3 else None), replay_const={'na': n, 'a_dm': dm},
+             inputs=_ops_inputs('a') + [('c', 'u64')], replay='bmoc_pack', replay_search=('bmoc_pack_search' if (n <= 3 or dm <= 1) else None), replay_const={'na': n, 'a_dm': dm},
              covers=(['sequence with four full siblings'] if n >= 4 else []),
              domain='pack: every valid sequence of exactly %d entries (symbolic depth/hash/flag), depth_max %d, symbolic probe cell' % (n, dm))
 
@@ -284,7 +284,7 @@ def _pack_h(pid, n, dm, tiers, timeout=1800, mem_gb=8):
           B + 'BMOCBuilderUnsafe::pack#0': dm + 2, B + 'BMOCBuilderUnsafe::pack#1': n + 1, B + 'BMOCBuilderUnsafe::pack#2': n + 1}
     return H('%s_pack_%d_dm%d' % (pid.lower(), n, dm), 'k_pack(%d, %d);' % (n, dm), tiers=tiers, timeout=timeout, mem_gb=mem_gb,
              unwind=3, unwindset=us, stubs=_bmoc_stubs('verif_' + pid.lower()),
-             inputs=_ops_inputs('a') + [('c', 'u64')], replay='bmoc_pack', replay_search=('bmoc_pack_search' if n <= 3 else None), replay_const={'na': n, 'a_dm': dm},
+             inputs=_ops_inputs('a') + [('c', 'u64')], replay='bmoc_pack', replay_search=('bmoc_pack_search' if (n <= 3 or dm <= 1) else None), replay_const={'na': n, 'a_dm': dm},
              covers=(['sequence with four full siblings'] if n >= 4 else []),
              domain='pack: every valid sequence of exactly %d entries (symbolic depth/hash/flag), depth_max %d, symbolic probe cell' % (n, dm))
 
@@ -294,6 +294,8 @@ def _pack_d_h(pid, n, dm, dfix, tiers, timeout=2400, mem_gb=20):
     h['name'] = '%s_pack_%d_dm%d_d%d' % (pid.lower(), n, dm, dfix)
     h['call'] = 'k_pack_d(%d, %d, %d);' % (n, dm, dfix)
     h['covers'] = ['sequence with four full siblings', 'partial first sibling followed by three full siblings']
+    h['replay_search'] = 'bmoc_pack_search'
+    h['replay_const'] = {'na': n, 'a_dm': dm, 'dfix': dfix}
     h['domain'] = 'pack: every valid sequence of exactly %d entries all of depth %d (symbolic hash/flag), depth_max %d, symbolic probe cell' % (n, dfix, dm)
     return h
 
@@ -633,6 +635,11 @@ for (_d, _dl, tiers) in ((0, 0, Q), (3, 0, Q), (29, 0, Q), (0, 1, Q), (2, 2, Q),
                   stubs=_LIBM + [('crate::nested::bmoc::BMOCBuilderUnsafe::pack', 'crate::nested::bmoc::verif_c06b::stub_pack_identity')], inputs=[('lon', 'f64'), ('lat', 'f64')], replay='c06_allsky', replay_const={'depth': _d, 'delta': _dl},
                   covers=['NaN centre'],
                   domain='depth %d, delta_depth %d: radius in {pi, next double after pi, 4, 1e300, +inf}, every double centre (incl. NaN)' % (_d, _dl)))
+_c06.append(H('c06_allsky_pi_d0_dd0', 'k_c06_allsky_pi(0, 0);', tiers=Q, timeout=1200, mem_gb=8, unwind=14,
+              stubs=_LIBM + [('crate::nested::bmoc::BMOCBuilderUnsafe::pack', 'crate::nested::bmoc::verif_c06b::stub_pack_identity'),
+                             ('crate::nested::Layer::cone_coverage_approx_recur', 'crate::nested::verif_c06::stub_recur_nothing')], inputs=[('lon', 'f64'), ('lat', 'f64')],
+              replay='c06_allsky_pi', replay_const={'depth': 0, 'delta': 0},
+              domain='depth 0: radius exactly pi, every centre with lon in [0, 6.3], lat in [-pi/2, pi/2]'))
 for (ds, lv, tiers) in ((0, 1, Q), (1, 1, Q), (0, 2, T), (3, 2, T)):
     B = 'crate::nested::bmoc::'
     _c06.append(H('c06_recur_d%d_l%d' % (ds, lv), 'k_c06_recur(%d, %d);' % (ds, lv), tiers=tiers, timeout=2400, mem_gb=10, unwind=26,
@@ -724,6 +731,12 @@ for _d in range(30):
                       unwindset=_c03_us(_d), stubs=_PLANE_CUT_N('verif_c03'), inputs=[('x', 'f64'), ('y', 'f64')], replay='c03_pullback', replay_const={'depth': _d},
                       covers=['x = 4 (seam or base cell corner line)', 'x = 8'],
                       domain='depth %d: every double point of the HEALPix image (x in [0, 8]) with y in the %s band' % (_d, bn)))
+for _d in range(30):
+    for band, bn in ((0, 'npc'), (1, 'eqr'), (2, 'spc')):
+        _c03.append(H('c03_range_%s_d%d' % (bn, _d), 'k_c03_range(%d, %d);' % (_d, band), tiers=Q if _d in (0, 1, 29) else T, timeout=1200, mem_gb=6, unwind=4,
+                      unwindset=_c03_us(_d), stubs=_PLANE_CUT_N('verif_c03'), inputs=[('x', 'f64'), ('y', 'f64')], replay='c03_pullback', replay_const={'depth': _d},
+                      covers=['x = 4 (seam or base cell corner line)', 'x = 8'],
+                      domain='depth %d: every double point of the HEALPix image (x in [0, 8]) with y in the %s band: cell number in range, offsets in [0, 1]' % (_d, bn)))
 for w in range(9):
     _c03.append(H('c03_guard_%d' % w, 'k_c03_guard(2, %d);' % w, tiers=Q, timeout=600, mem_gb=6, should_panic=True, unwind=5, stubs=_LIBM,
                   inputs=[('h', 'u64')], replay='c03_guard', replay_const={'depth': 2, 'which': w}, never=['guard bypassed'],
@@ -772,7 +785,7 @@ X = ('extended',)
 _KEEP_T = {
     'C01': r'^c01_e2e_d(4|8|16|17|29)$|^c01_r_npc_',
     'C02': r'.',
-    'C03': r'_d(3|8|16|17|28)$|^c03_image_\w+_d29$',
+    'C03': r'_d(3|8|16|17|28)$|^c03_image_\w+_d29$|^c03_range_',
     'C04': r'^c04_pair_d(4|8|16|17|24)$',
     'C06': r'.',
     'C07': r'^(?!c07_(or|xor)_(1_2|2_1)_)',
